@@ -993,6 +993,31 @@ fn chunk_range<T: std::iter::Step + std::ops::Add<u64, Output = T> + std::cmp::O
     })
 }
 
+/// verification hook: run the private sync server loop (`process_sync` -> `handle_need`) on a list of
+/// requests and return every message it would have sent to the peer
+#[cfg(feature = "verif")]
+pub async fn verif_process_sync(
+    pool: SplitPool,
+    bookie: Bookie,
+    requests: Vec<SyncRequestV1>,
+) -> eyre::Result<Vec<SyncMessage>> {
+    let (tx_need, rx_need) = mpsc::channel(requests.len().max(1));
+    let (tx, mut rx) = mpsc::channel::<SyncMessage>(256);
+    let collector = tokio::spawn(async move {
+        let mut out = vec![];
+        while let Some(m) = rx.recv().await {
+            out.push(m);
+        }
+        out
+    });
+    for r in requests {
+        tx_need.send(r).await?;
+    }
+    drop(tx_need);
+    process_sync(pool, bookie, tx, rx_need).await?;
+    Ok(collector.await?)
+}
+
 /// verification hook: makes the private `chunk_range` callable from the harness
 #[cfg(feature = "verif")]
 pub fn verif_chunk_range(
